@@ -414,3 +414,27 @@ Record wrapper := Wrapper {
   w_fill_rt : rtarg;
   w_could_modify : bexp mvar
 }.
+
+(* ---------------------------------------------------------------------------------------------- guards and the stored-hash reader (syntax) *)
+
+(* A `continue` guard at the head of ruleHash's loop over target.AllSources(): gotrans regenerates the disjunction of the
+   guard conditions as `srcs_skip` (Gen/RuleHashProg.v; `BConst false` when the loop has no guard).  The only atom the
+   translator knows is `_, ok := source.Label(); ok`.  Semantics: Model/C08_Srcs.v. *)
+Inductive ivar := IVIsLabel.
+
+(* The body of the loop `for _, output := range target.FullOutputs() { ... }` of build.readRuleHashFromXattrs, regenerated by
+   gotrans as `stored_reader_body`.  Variables: h (declared before the loop), b (declared in the body).  Semantics:
+   Model/C08_Store.v. *)
+Inductive rvar := RVh | RVb.
+Inductive ratom :=
+| RNil (v : rvar)          (* v == nil *)
+| REqual.                  (* bytes.Equal(h, b) *)
+Inductive rexp :=
+| RRead                    (* fs.ReadAttr(output, xattrName, state.XattrsSupported) *)
+| RVar (v : rvar).
+Inductive rstmt :=
+| RSkip
+| RSeq (a b : rstmt)
+| RAssign (v : rvar) (e : rexp)                (* v = e  /  v := e *)
+| RIf (c : bexp ratom) (th el : rstmt)
+| RReturnEmpty.                                (* return ruleHashes{} *)
